@@ -10,6 +10,7 @@ import Scico.Proofs.LinSolveCG
 import Scico.Proofs.LinSolveMat
 import Scico.Proofs.LinSolveScalar
 import Scico.Proofs.LinSolveCGConj
+import Scico.Proofs.LinSolveCGOpt
 import Scico.Proofs.LinSolveJax
 import Scico.Proofs.LinSolveScalar2
 import Mathlib.Analysis.InnerProductSpace.Basic
@@ -183,6 +184,19 @@ theorem C14_cg_error_decreases (A : V →ₗ[𝕜] V) (M : V → V) (b x0 xs : V
   have : 0 < (re s.num) ^ 2 / re (inner 𝕜 s.p (A s.p)) := div_pos (by positivity) hdpos
   have heq' : errA (cgSeq (𝕜 := 𝕜) (⇑A) M b x0 (k + 1)).x = errA s.x - (re s.num) ^ 2 / re (inner 𝕜 s.p (A s.p)) := heq
   rw [heq']; linarith
+
+/-- **CG is optimal over the search space.**  With `A x⋆ = b`: for every `v` in the span of the directions `p_0 … p_{k-1}` used
+    so far, `‖x⋆ − (x_k + v)‖²_A = ‖x⋆ − x_k‖²_A + ‖v‖²_A ≥ ‖x⋆ − x_k‖²_A` — the `k`-th iterate minimises the `A`-norm of
+    the error over `x_k + span{p_j}` (`= x_0 +` the Krylov space). -/
+theorem C14_cg_optimal (A : V →ₗ[𝕜] V) (M : V → V) (b x0 xs : V) (hxs : A xs = b)
+    (hAs : ∀ x y, inner 𝕜 (A x) y = inner 𝕜 x (A y)) (hAp : ∀ x, x ≠ 0 → 0 < re (inner 𝕜 x (A x)))
+    (hM : ∀ x y, inner 𝕜 (M x) y = inner 𝕜 x (M y)) (k : Nat)
+    (hrun : ∀ j < k, (cgSeq (𝕜 := 𝕜) (⇑A) M b x0 j).num ≠ 0) (v : V)
+    (hv : v ∈ Submodule.span 𝕜 (Set.range fun j : Fin k => (cgSeq (𝕜 := 𝕜) (⇑A) M b x0 j.val).p)) :
+    let xk := (cgSeq (𝕜 := 𝕜) (⇑A) M b x0 k).x
+    re (inner 𝕜 (xs - (xk + v)) (A (xs - (xk + v)))) = re (inner 𝕜 (xs - xk) (A (xs - xk))) + re (inner 𝕜 v (A v)) ∧
+      re (inner 𝕜 (xs - xk) (A (xs - xk))) ≤ re (inner 𝕜 (xs - (xk + v)) (A (xs - (xk + v)))) :=
+  cg_optimal A M b x0 xs hxs hAs hAp hM k hrun v hv
 
 /-- **At most `dim V` iterations** (exact arithmetic).  For Hermitian positive-definite `A`, Hermitian `M`, any data and
     tolerances: `num_iter ≤ dim V`; and with `maxiter ≥ dim V` the disjunct "`maxiter` used up" of `C14_cg_exit` never
